@@ -7,7 +7,7 @@ COQ_IMPORTS = 'From VRP Require Import Base.Tac Model.Gsom.'
 MODEL_TARGETS = ['theories/Model/Gsom.vo']
 MODEL_NEEDS_IMPL = True
 SHARD = 12
-SIZES = {'quick': 420, 'thorough': 5000, 'search': 1500}
+SIZES = {'quick': 700, 'thorough': 5000, 'search': 1500}
 SEARCH_ROUNDS = 2
 RULE = ('cases: (net, ~85%) the real gsom::Network built from 4-59 integer-valued individuals of dimension 1-4 (streams: clustered, '
         'duplicated, outliers, constant; occasionally <4 individuals = creation error; occasionally an input of another dimension = '
@@ -389,6 +389,13 @@ def oracle(c, impl):
                 v.append({'class': 'panic-in-' + name, 'what': t['panic']})
             break
         wf_dump(t, name, c['dim'], node_size, v)
+        if name == 'store':
+            after = {(n[0], n[1]): n[5] for n in t['nodes']}
+            if any(after.get((n[0], n[1]), -1) < n[5] for n in tr[k - 1]['nodes']):
+                v.append({'class': 'node-lost-or-replaced-in-store', 'what': 'a node present before store_batch is missing afterwards or lost its hit counter'})
+        if name == 'smooth':
+            if sorted((n[0], n[1]) for n in t['nodes']) != sorted((n[0], n[1]) for n in tr[k - 1]['nodes']):
+                v.append({'class': 'smooth-changed-lattice', 'what': 'smoothing (growth not allowed) changed the set of coordinates'})
         if name == 'compact':
             before = tr[k - 1]
             if t['size'] > before['size']:
